@@ -4,11 +4,11 @@
 cd "$(dirname "$0")/.." || exit 2
 tier=${1:-quick}; [ $# -gt 0 ] && shift
 props=${*:-$(/venv/bin/python -c "import json; print(' '.join(c['property_id'] for c in json.load(open('MANIFEST.json'))['checks']))")}
-mkdir -p /var/tmp/giverif-runall
+mkdir -p ${RUNALL_LOGDIR:-/var/tmp/giverif-runall}
 one() {
   p=$1; s=$(date +%s)
-  ./check $p $tier > /var/tmp/giverif-runall/$p.log 2>&1; c=$?
-  echo "$p exit=$c $(( $(date +%s) - s ))s $(grep -c '^VIOLATION' /var/tmp/giverif-runall/$p.log) violations $(grep -c '^KNOWN-FINDING' /var/tmp/giverif-runall/$p.log) known"
+  ./check $p $tier > ${RUNALL_LOGDIR:-/var/tmp/giverif-runall}/$p.log 2>&1; c=$?
+  echo "$p exit=$c $(( $(date +%s) - s ))s $(grep -c '^VIOLATION' ${RUNALL_LOGDIR:-/var/tmp/giverif-runall}/$p.log) violations $(grep -c '^KNOWN-FINDING' ${RUNALL_LOGDIR:-/var/tmp/giverif-runall}/$p.log) known"
 }
 par=${RUNALL_PAR:-4}
-echo $props | tr " " "\n" | xargs -P $par -I{} sh -c 'p={}; s=$(date +%s); ./check $p '$tier' > /var/tmp/giverif-runall/$p.log 2>&1; c=$?; echo "$p exit=$c $(( $(date +%s) - s ))s $(grep -c "^VIOLATION" /var/tmp/giverif-runall/$p.log) violations $(grep -c "^KNOWN-FINDING" /var/tmp/giverif-runall/$p.log) known"'
+echo $props | tr " " "\n" | xargs -P $par -I{} sh -c 'p={}; s=$(date +%s); ./check $p '$tier' > ${RUNALL_LOGDIR:-/var/tmp/giverif-runall}/$p.log 2>&1; c=$?; echo "$p exit=$c $(( $(date +%s) - s ))s $(grep -c "^VIOLATION" ${RUNALL_LOGDIR:-/var/tmp/giverif-runall}/$p.log) violations $(grep -c "^KNOWN-FINDING" ${RUNALL_LOGDIR:-/var/tmp/giverif-runall}/$p.log) known"'
